@@ -480,6 +480,7 @@ func (c *Ctx) codEnc(which map[string]bool) {
 		}
 	}
 	if which["COD-5"] {
+		c.cod5Head()
 		c.S.Floor("COD-5", "remaining-length encoders", found, 4)
 		// CONNECT is bounded by the validated component lengths
 		bound := int64(12) + sm + (2 + sm) + (2 + sm) + (4 + sm + sm)
@@ -887,3 +888,72 @@ func (c *Ctx) regionBlocks(fn *ssa.Function) []*ssa.BasicBlock {
 }
 
 var _ = load.FuncName
+
+// cod5Head: the fixed header byte each publish method asks for —
+// PUBLISH type nibble, the method's quality-of-service level in bits 1–2, the
+// retain bit only in the …Retained variants — and the identifier space that
+// goes with the level.
+func (c *Ctx) cod5Head() {
+	pt := c.packetTypes()
+	alo, eo := c.constInt("atLeastOnceIDSpace"), c.constInt("exactlyOnceIDSpace")
+	base := pt["typePUBLISH"] << 4
+	tab := []struct {
+		name  string
+		head  int64
+		space int64
+	}{
+		{"(*Client).Publish", base, 0},
+		{"(*Client).PublishRetained", base | 1, 0},
+		{"(*Client).PublishAtLeastOnce", base | 1<<1, alo},
+		{"(*Client).PublishAtLeastOnceRetained", base | 1<<1 | 1, alo},
+		{"(*Client).PublishExactlyOnce", base | 2<<1, eo},
+		{"(*Client).PublishExactlyOnceRetained", base | 2<<1 | 1, eo},
+	}
+	pp := c.P.Func("publishPacket")
+	for _, t := range tab {
+		fn := c.Fn("COD-5", t.name)
+		if fn == nil {
+			continue
+		}
+		key := "COD-5|" + t.name + "|fixed-header-byte-and-identifier-space"
+		var head, space int64 = -1, -1
+		n := 0
+		for _, b := range c.regionBlocks(fn) {
+			for _, ins := range b.Instrs {
+				call, ok := ins.(*ssa.Call)
+				if !ok || call.Call.StaticCallee() == nil || load.TopLevel(call.Call.StaticCallee()).Pkg != c.P.Root {
+					continue
+				}
+				args := call.Call.Args
+				if len(args) == 0 {
+					continue
+				}
+				last := args[len(args)-1]
+				if bt, ok := last.Type().Underlying().(*types.Basic); !ok || bt.Kind() != types.Uint8 {
+					continue
+				}
+				k, isK := intConst(last)
+				if !isK {
+					continue
+				}
+				n++
+				head = k
+				if call.Call.StaticCallee() == pp && len(args) >= 2 {
+					if s, ok := intConst(args[len(args)-2]); ok {
+						space = s
+					}
+				} else {
+					space = 0 // through publish(), which passes identifier 0
+				}
+			}
+		}
+		switch {
+		case n != 1:
+			c.S.Unknown("COD-5", key, c.P.Pos(fn.Pos()), t.name, fmt.Sprintf("found %d calls that pass a constant header byte, want 1", n))
+		case head != t.head || space != t.space:
+			c.S.Bad("COD-5", key, c.P.Pos(fn.Pos()), t.name, fmt.Sprintf("the method asks for header byte %#x in identifier space %#x, want %#x in %#x: the PUBLISH goes out with another quality of service or retain flag than the method promises", head, space, t.head, t.space), nil)
+		default:
+			c.S.OK("COD-5", key, c.P.Pos(fn.Pos()), t.name, fmt.Sprintf("header byte %#x, identifier space %#x", head, space), true)
+		}
+	}
+}
